@@ -2,7 +2,7 @@
 // github.com/ipld/go-car/v2 so that the simulator owns them:
 //
 //	sync.Mutex / sync.RWMutex            -> sim.Mutex / sim.RWMutex   (every non-test file)
-//	os.File / os.OpenFile                -> sim.File / sim.OpenFile   (packages blockstore, storage/deferred)
+//	os.File / os.OpenFile / os.Remove    -> sim.File / sim.OpenFile / sim.Remove   (packages blockstore, storage/deferred)
 //
 // It never touches /repo: it is given the directory of a copy. Exit status 0 on
 // success, 2 on any problem (the caller treats that as an infrastructure failure).
@@ -130,7 +130,7 @@ func rewriteFile(path string, osScope bool) (counts, error) {
 		case osScope && osName != "" && x.Name == osName && sel.Sel.Name == "File":
 			x.Name = simName
 			c.osfile++
-		case osScope && osName != "" && x.Name == osName && sel.Sel.Name == "OpenFile":
+		case osScope && osName != "" && x.Name == osName && (sel.Sel.Name == "OpenFile" || sel.Sel.Name == "Remove"):
 			x.Name = simName
 			c.openfile++
 		}
